@@ -132,15 +132,13 @@ def mk_parsing_state(it, name='parsing_state', with_context=None):
     def context(it2):
         if it2.ctx.choose(2, 'latex_context present') == 0:
             return None
-        db = new_obj(it2, CTXDB, {}, tag='latex_context')
-        db.open = True
-        return db
+        from contracts.contextdb import mk_db
+        return mk_db(it2, name='latex_context', unknowns=False)
     if with_context is None:
         f['latex_context'] = V.LazyField(context)
     elif with_context:
-        db = new_obj(it, CTXDB, {}, tag='latex_context')
-        db.open = True
-        f['latex_context'] = db
+        from contracts.contextdb import mk_db
+        f['latex_context'] = mk_db(it, name='latex_context', unknowns=False)
     else:
         f['latex_context'] = None
     o = new_obj(it, PS, f, tag=name)
@@ -186,20 +184,6 @@ def register(reg):
     reg.spec('delim_at')(lambda it, ps, i: ps.fields['_math_all_delims_by_len'].delim(i))
     reg.spec('tok_at')(lambda it, ps, i: ps.fields['_math_all_delims_by_len'].tok(i))
     reg.spec('n_delims')(lambda it, ps: ps.fields['_math_all_delims_by_len'].pyvc_len(it))
-
-    # ---------------- LatexContextDb as used by the tokenizer (proved in C14) --------------
-    reg.add(Contract(
-        CTXDB + '.get_specials_spec',
-        result_make=lambda it, env: (None if it.ctx.choose(2, 'specials spec or None') else
-                                     mk_specials_spec(it, 'sspec')),
-        raises={'KeyError': []},
-        modifies=[], note='interface contract; verified for LatexContextDb in C14'))
-    reg.add(Contract(
-        CTXDB + '.test_for_specials',
-        result_make=lambda it, env: (None if it.ctx.choose(2, 'specials at pos or None') else
-                                     mk_specials_spec(it, 'sspec')),
-        ensures=['result is None or s.startswith(result.specials_chars, pos)'],
-        modifies=[], note='interface contract; verified for LatexContextDb in C14'))
 
     # ---------------- environment-name regular expression (A-LIB) -------------------------------
     class SymMatch(object):
@@ -597,7 +581,9 @@ def register(reg):
         cls = resolve_class(it, EOS)
         return Obj(cls, {'final_space': it.fresh_str('final_space'), 'args': ()}, tag='exc')
 
-    READER_REQ = [('reader-position-in-range', '0 <= self._pos and self._pos <= len(self.s)')]
+    READER_REQ = [('reader-position-in-range', '0 <= self._pos and self._pos <= len(self.s)'),
+                  ('context-database-invariant',
+                   'parsing_state.latex_context is None or db_inv(parsing_state.latex_context)')]
 
     c_impl_peek = reg.add(Contract(
         TR + '.impl_peek_token', setup=setup_reader, requires=READER_REQ,
